@@ -64,6 +64,7 @@ func init() {
 			must(cl.SetRaw("d1", 0, nil, []byte("1")))
 			must(cl.SetRaw("d2", 0, nil, []byte("2")))
 		}
+		_ = coll(w.h[1], NameB) // handle 1 has used B before (handle 2 is the one that never opens anything)
 		return w
 	})
 }
